@@ -15,6 +15,7 @@ from .. import sessionlib as sl
 from .. import market as mk
 
 NAME = "pair"
+ISOLATE = "fork"
 PROPS = ("C07",)
 CHUNK = {"quick": 4, "thorough": 4}
 RULE = ("(future-rewrite kind, position of the cut day relative to the rebalances: before first / on a rebalance "
